@@ -587,6 +587,11 @@ def gen_c06(ch, prof):
             nodes[nid]['n_frames'] = 10 ** 9
             nodes[nid]['period_ns'] = ch.pick('gen', [50, 20, 100]) * MS
             nodes[nid].pop('skip', None)
+    for nid in order:
+        if isinstance(nodes[nid].get('defer_none'), dict):
+            # a run of deferred-None results that lasts to the end of the stream means "nothing flows any more" by design:
+            # not a liveness scenario (periodic decimation stays)
+            del nodes[nid]['defer_none']
     knobs['ZMQ_CONN_TIMEOUT'] = ct = ch.pick('gen', [2000, 1000, 5000])
     consumers = {}      # publisher -> its SYNCHRONIZED consumers ('??' listeners never register, a stalled '?' one times out)
     for nid in order:
